@@ -140,12 +140,14 @@ def h_die_cache_step(ctx):
             _Obj.__init__(self, offset)
             made.append(self)
     orig = mod.DIE
+    # a real DWARFInfo around the unit (the cache code may use whatever a unit can reach; only the entry class is a double)
+    di, _ = mk_dwarfinfo(ctx, True, 8, debug_info=[0] * 16, debug_abbrev=[0], debug_types=[0] * 16)
     mod.DIE = DIEDouble
     try:
         if which == 'cu':
-            unit = mod.CompileUnit(header={'unit_length': 1 << 24}, dwarfinfo=None, structs=None, cu_offset=0, cu_die_offset=offs[0])
+            unit = mod.CompileUnit(header={'unit_length': 1 << 24, 'version': 4}, dwarfinfo=di, structs=di.structs, cu_offset=0, cu_die_offset=offs[0])
         else:
-            unit = mod.TypeUnit(header={'unit_length': 1 << 24}, dwarfinfo=None, structs=None, tu_offset=0, tu_die_offset=offs[0])
+            unit = mod.TypeUnit(header={'unit_length': 1 << 24, 'version': 4}, dwarfinfo=di, structs=di.structs, tu_offset=0, tu_die_offset=offs[0])
         unit._diemap = list(offs)
         unit._dielist = list(objs)
         req = ctx.uint('request', 24)
@@ -643,6 +645,131 @@ def h_links(ctx):
                  ([(top_off + 1 + len(body), 1)] if forest else []))
 
 
+# ------------------------------------------------------------------ L8 imported units with an attached supplementary file
+def h_imported(ctx):
+    """iter_DIEs of a unit that imports a partial unit of the attached supplementary file (dwz): the walk substitutes the imported unit's
+    tree for the DW_TAG_imported_unit entry.  The answer must be the same on the first walk, on a second walk, after an abandoned walk
+    and after random accesses - and must follow the attachment (attached later / never)."""
+    cfg = ctx.cfg
+    little, addr, sched, form = cfg['little'], cfg['addr'], cfg['schedule'], cfg['form']
+    TAG_IMPORTED, TAG_PARTIAL, AT_IMPORT = 0x3d, 0x3c, 0x18
+    fsz = {0x1c: 4, 0x1f20: 4, 0x1d: 8}[form]
+    # supplementary file: one partial unit (top entry + one variable)
+    sup_ab = abbrev_table([(1, TAG_PARTIAL, True, []), (2, T.TAG_VAR, False, [(T.AT['const_value'], 0x0b)])])
+    sup_body = [1, 2, ctx.byte('sup.const'), 0]
+    sh, shsz = unit_header(4, False, little, addr, 0, 'compile', body_len=len(sup_body))
+    sup_sec = sh + sup_body
+    # main file: top entry, [imported unit], variable, [namespace [imported unit]]
+    ab = abbrev_table([(1, T.TAG_CU, True, []), (2, T.TAG_VAR, False, [(T.AT['const_value'], 0x0b)]), (3, TAG_IMPORTED, False, [(AT_IMPORT, form)]), (4, T.TAG_NS, True, [])])
+    imp = [3] + enc.enc_int(shsz, fsz, little)
+    body = [1] + imp + [2, ctx.byte('main.const')] + [4] + imp + [0] + [0]
+    h, hsz = unit_header(4, False, little, addr, 0, 'compile', body_len=len(body))
+    sec = h + body
+    o = hsz
+    offs = dict(top=o, imp1=o + 1, var=o + 1 + len(imp), ns=o + 3 + len(imp), imp2=o + 4 + len(imp), ns_end=o + 4 + 2 * len(imp), end=o + 5 + 2 * len(imp))
+    S = ('sup', )
+    with_sup = [('main', offs['top'], 'DW_TAG_compile_unit'), ('sup', shsz, 'DW_TAG_partial_unit'), ('sup', shsz + 1, 'DW_TAG_variable'), ('sup', shsz + 3, None),
+                ('main', offs['var'], 'DW_TAG_variable'), ('main', offs['ns'], 'DW_TAG_namespace'),
+                ('sup', shsz, 'DW_TAG_partial_unit'), ('sup', shsz + 1, 'DW_TAG_variable'), ('sup', shsz + 3, None),
+                ('main', offs['ns_end'], None), ('main', offs['end'], None)]
+    without = [('main', offs['top'], 'DW_TAG_compile_unit'), ('main', offs['imp1'], 'DW_TAG_imported_unit'), ('main', offs['var'], 'DW_TAG_variable'),
+               ('main', offs['ns'], 'DW_TAG_namespace'), ('main', offs['imp2'], 'DW_TAG_imported_unit'), ('main', offs['ns_end'], None), ('main', offs['end'], None)]
+    di, streams = mk_dwarfinfo(ctx, little, addr, debug_info=sec, debug_abbrev=ab)
+    sup, _ = mk_dwarfinfo(ctx, little, addr, debug_info=sup_sec, debug_abbrev=sup_ab)
+    cu = next(di.iter_CUs())
+
+    def view(it):
+        return [('sup' if d.cu.dwarfinfo is sup else 'main', d.offset, d.tag) for d in it]
+    attach_first = sched != 'walk-then-attach'
+    if attach_first:
+        di.supplementary_dwarfinfo = sup
+    if sched == 'full-walk':
+        list(cu.iter_DIEs())
+    elif sched.startswith('abandon:'):
+        it = cu.iter_DIEs()
+        for _ in range(int(sched.split(':')[1])):
+            next(it)
+    elif sched == 'random-access':
+        for k in ('imp2', 'var', 'imp1', 'ns'):
+            cu.get_DIE_from_refaddr(offs[k])
+        list(cu.get_top_DIE().iter_children())
+    elif sched == 'walk-then-attach':
+        ctx.check_eq('L8/imported/%#x/not-attached' % form, view(ctx.drain(cu.iter_DIEs())), without)
+        di.supplementary_dwarfinfo = sup
+    elif sched == 'two-full-walks':
+        list(cu.iter_DIEs())
+        list(cu.iter_DIEs())
+    got = view(ctx.drain(cu.iter_DIEs()))
+    ctx.outcome('ok')
+    ctx.check_eq('L8/imported/%#x/%s/walk' % (form, sched.split(':')[0]), got, with_sup)
+    again = view(cu.iter_DIEs())
+    ctx.check_eq('L8/imported/%#x/%s/second-walk' % (form, sched.split(':')[0]), again, with_sup)
+    # the substituted entries are the supplementary file's own entries: their parent links lead to the partial unit, and the imported-unit
+    # entries themselves stay reachable by offset
+    ctx.check_eq('L8/imported/%#x/by-offset' % form, [cu.get_DIE_from_refaddr(offs[k]).tag for k in ('imp1', 'imp2')], ['DW_TAG_imported_unit'] * 2)
+    ctx.check_eq('L8/imported/%#x/children-of-top' % form, [d.offset for d in cu.get_top_DIE().iter_children()], [offs['imp1'], offs['var'], offs['ns']])
+
+
+# ------------------------------------------------------------------ L9 indexed forms resolved through the top entry, whatever was asked first
+def h_indexed_cold(ctx):
+    """a DWARF 5 unit whose child entries use indexed forms (strx1 / addrx1: resolved through the *_base attributes of the unit's top entry) followed
+    by further attributes.  Entries are fetched by offset on a fresh unit (nothing parsed yet), after the top entry, after a walk: same answers."""
+    cfg = ctx.cfg
+    little, addr, sched = cfg['little'], cfg['addr'], cfg['schedule']
+    AT_STROFF, AT_ADDRBASE, AT_NAME, AT_LOWPC, AT_LINE = 0x72, 0x73, 0x03, 0x11, 0x3b
+    ab = abbrev_table([(1, T.TAG_CU, True, [(AT_STROFF, 0x17), (AT_ADDRBASE, 0x17)]),
+                       (2, T.TAG_VAR, False, [(AT_NAME, 0x25), (AT_LINE, 0x0b)]),                  # strx1, data1
+                       (3, T.TAG_VAR, False, [(AT_LOWPC, 0x29), (AT_LINE, 0x0b), (AT_NAME, 0x25)])])   # addrx1, data1, strx1
+    strs = [ord(c) for c in 'alpha\0beta\0']
+    stroffs_hdr = enc.enc_int(4 + 2 * 4, 4, little) + enc.enc_int(5, 2, little) + [0, 0]
+    stroffs = stroffs_hdr + enc.enc_int(0, 4, little) + enc.enc_int(6, 4, little)
+    addrs = [ctx.uint('addr%d' % i, 8 * addr) for i in range(2)]
+    addr_body = enc.enc_int(5, 2, little) + [addr, 0] + sum([enc.enc_int(a, addr, little) for a in addrs], [])
+    addrsec = enc.enc_int(len(addr_body), 4, little) + addr_body
+    l1, l2 = ctx.byte('line1'), ctx.byte('line2')
+    i1, i2, ia = ctx.int_range('str1', 0, 1), ctx.int_range('str2', 0, 1), ctx.int_range('addrx', 0, 1)
+    body = [1] + enc.enc_int(len(stroffs_hdr), 4, little) + enc.enc_int(8, 4, little) + [2, i1, l1] + [3, ia, l2, i2] + [0]
+    h, hsz = unit_header(5, False, little, addr, 0, 'compile', body_len=len(body))
+    sec = h + body
+    o1 = hsz + 9
+    o2 = o1 + 3
+    names = [b'alpha', b'beta']
+    want1 = (o1, 'DW_TAG_variable', 3, [('DW_AT_name', 'DW_FORM_strx1', ('sel', i1), o1 + 1), ('DW_AT_decl_line', 'DW_FORM_data1', l1, o1 + 2)])
+    want2 = (o2, 'DW_TAG_variable', 4, [('DW_AT_low_pc', 'DW_FORM_addrx1', ctx.select(addrs, ia), o2 + 1), ('DW_AT_decl_line', 'DW_FORM_data1', l2, o2 + 2),
+                                        ('DW_AT_name', 'DW_FORM_strx1', ('sel', i2), o2 + 3)])
+    di, streams = mk_dwarfinfo(ctx, little, addr, debug_info=sec, debug_abbrev=ab, debug_str=strs, debug_str_offsets=stroffs, debug_addr=addrsec)
+    cu = next(di.iter_CUs())
+    if sched == 'top-first':
+        cu.get_top_DIE()
+    elif sched == 'walk-first':
+        list(cu.iter_DIEs())
+    elif sched == 'abandoned-walk':
+        next(cu.iter_DIEs())
+    order = (o2, o1) if cfg.get('second_first') else (o1, o2)
+    got = {}
+    for o in order:
+        d = cu.get_DIE_from_refaddr(o) if not cfg.get('via_dwarfinfo') else di.get_DIE_from_refaddr(o)
+        got[o] = d
+    ctx.outcome('ok')
+    for o, w in ((o1, want1), (o2, want2)):
+        d = got[o]
+        ctx.check_eq('L9/%s/entry/offset-tag-size' % sched, [d.offset, d.tag, d.size], [w[0], w[1], w[2]])
+        ctx.check_eq('L9/%s/entry/attribute-names' % sched, list(d.attributes), [a[0] for a in w[3]])
+        for nm, form, val, aoff in w[3]:
+            a = d.attributes.get(nm)
+            if a is None:
+                continue
+            ctx.check_eq('L9/%s/attr/%s/form-offset' % (sched, nm), [a.form, a.offset], [form, aoff])
+            if isinstance(val, tuple):
+                ctx.check('L9/%s/attr/%s/value' % (sched, nm), ctx.land(*[ctx.implies(val[1] == k, a.value == names[k]) for k in range(2)]))
+            else:
+                ctx.check_eq('L9/%s/attr/%s/value' % (sched, nm), a.value, val)
+    # the sequential walk afterwards gives the same entries, each once, in order
+    seq = [(d.offset, d.size) for d in cu.iter_DIEs()]
+    ctx.check_eq('L9/%s/walk-afterwards' % sched, seq, [(hsz, 9), (o1, 3), (o2, 4), (o2 + 4, 1)])
+    ctx.check('L9/%s/by-offset-again-identical' % sched, all(cu.get_DIE_from_refaddr(o) is got[o] for o in (o1, o2)))
+
+
 # ------------------------------------------------------------------ instances
 def _links_instances(tier):
     out = []
@@ -712,6 +839,14 @@ HARNESSES = [
     H('h10_L3_memo', h_memo, _memo_instances, expect=('ok',),
       desc='L3: after any single earlier query, after pairs / longer histories and after the whole alphabet in both orders, every query returns its cold answer (unit list, entry lists, abbreviation, '
            'line-program, type-unit and decoded-table memos)'),
+    H('h10_L8_imported_units', h_imported, lambda tier: [dict(little=l, addr=a, form=f, schedule=sc) for (l, a, f) in ((True, 8, 0x1f20), (False, 4, 0x1c)) for sc in
+                                                        ('cold', 'full-walk', 'two-full-walks', 'abandon:1', 'abandon:3', 'abandon:7', 'random-access', 'walk-then-attach')], expect=('ok',),
+      desc='L8: a unit importing a partial unit of an attached supplementary file: iter_DIEs substitutes the imported tree on EVERY walk (cold, after complete or abandoned walks, after random access, '
+           'after a walk made before the file was attached); imported-unit entries stay reachable by offset'),
+    H('h10_L9_indexed_forms_cold', h_indexed_cold, lambda tier: [dict(little=l, addr=a, schedule=sc, second_first=sf, via_dwarfinfo=v) for (l, a) in ((True, 8), (False, 4))
+                                                               for sc in ('cold', 'top-first', 'walk-first', 'abandoned-walk') for sf in (False, True) for v in (False, True)], expect=('ok',),
+      desc='L9: entries with indexed forms (strx1, addrx1 - resolved through the base attributes of the top entry) fetched by offset on a unit of which nothing was parsed yet, after the top entry, after a walk: '
+           'attribute values (symbolic indices, addresses, line bytes), attribute offsets and entry sizes are the same; walking afterwards yields each entry once'),
     H('h10_L4_links', h_links, _links_instances, expect=('ok',),
       desc='L4: for every tree shape (<= 4/5 entries) with and without sibling attributes, and the schedules cold / full iteration / iteration abandoned after 1-3 entries / children of every entry '
            'backwards / parents backwards / every child iterator abandoned after one step (stream left at a symbolic position): get_parent and iter_children equal the cold answers and the encoded '
